@@ -315,6 +315,11 @@ def rand_tree(rng, depth=0, counter=None, copies=None):
     return nodes
 
 
+def out_size(nodes):
+    "number of output elements of the written tree without any limit"
+    return sum((n.rep or 1) * ((1 if n.kind == 'e' else 0) + out_size(n.ch)) for n in nodes)
+
+
 def strip_mods_without_repeater(nodes, has_rep=False):
     "modifiers (@M, @-) are only generated where a repeater governs the site"
     for n in nodes:
@@ -391,8 +396,7 @@ def run_shard(desc, ctx):
                 counter = itertools.count(1)
                 nodes = rand_tree(rng, 0, counter)
                 strip_mods_without_repeater(nodes)
-                full = simulate(nodes, None, None, [False])
-                if sum(1 for x in full if x[0] == 'open') > 700:
+                if out_size(nodes) > 700:       # decided arithmetically: simulating 101^4 copies first exhausted memory
                     continue
                 done += 1
                 m = rng.choice([None, None, None, None, None, 1, 2, 3, 5, 8, 13, 21, 50, 99, 100, 250])
